@@ -290,7 +290,7 @@ func (p *H264Packet) parseBody(payload []byte) ([]byte, error) { //nolint:cyclop
 			return nil, errShortPacket
 		}
 
-		if p.fuaBuffer == nil {
+		if p.fuaBuffer == nil || payload[1]&fuStartBitmask != 0 {
 			p.fuaBuffer = []byte{}
 		}
 
